@@ -124,6 +124,10 @@ def lean_type(t):
         return f'{lean_type(dom)} → {lean_type(cod)}'
     if t.startswith('Set '):
         return 'List ' + _paren(lean_type(t[4:]))
+    if t.startswith(('DDict ', 'Dict ')) and len(t.split()) == 3:
+        # `defaultdict(list)` key -> list of values / a plain dict, both as association lists in insertion order
+        k, v = t.split()[1:3]
+        return f'List ({lean_type(k)} × {_paren("List " + _paren(lean_type(v))) if t.startswith("DDict ") else _paren(lean_type(v))})'
     if t.startswith('Opt ') and t not in LEAN_TYPE:
         return 'Option ' + _paren(lean_type(t[4:]))
     if t.startswith('Tuple') and ' ' in t:
@@ -280,6 +284,7 @@ class FnTr:
         c.on_fall = self.on_fall
         c.aux = self.aux         # shared: loops met in any branch are emitted once, before the function
         c.localfns = dict(getattr(self, 'localfns', {}))
+        c.no_return = getattr(self, 'no_return', False)
         return c
 
     def wrap(self, text):
@@ -333,6 +338,10 @@ class FnTr:
                 return self.finish_init()
             raise Unsupported(f'`{self.inst.qual}`: control can fall off the end (returns None)')
         s, rest = stmts[0], stmts[1:]
+        if self.u.hooks.get('worklist'):
+            ext = self.ext_stmt(s, rest)          # work-list subset (local sets / dicts, nested loops): see `ext_stmt`
+            if ext is not None:
+                return ext
         if isinstance(s, (ast.Pass, ast.Import, ast.ImportFrom)):
             return self.block(rest)
         if isinstance(s, ast.FunctionDef) and not s.decorator_list and f'{self.inst.qual}.{s.name}' in self.u.src.defs \
@@ -812,6 +821,348 @@ class FnTr:
         args = [self.env[n].text for n in fixed] + [_paren(xs.text)] + [_paren(self.env[n].text) for n in state]
         return self.wrap(' '.join([loop] + ctx + args))
 
+    # ---- the work-list subset (unit hook `worklist`): local sets and dicts that are mutated, loops inside loops ----------
+    #
+    # hooks (Lean text templates of the unit):  set_add `{x} {s}` · set_pop `{s}` (an `Option`: which element `pop()` returns)
+    # · set_union `{f} {xs}` / set_union_e (members that may raise) · dict_append `{d} {k} {v}` · fuel_out (the result when a
+    # `while` runs out of fuel with its condition still true).  A `for` loop becomes an auxiliary structural recursion that
+    # *returns* the variables its body changes; a `while` loop a fuelled recursion whose continuation is the code after it.
+
+    @staticmethod
+    def _mut_base(node):
+        """the local a mutating method call acts on: `x.add(..)`, `x.pop()`, `d[k].append(..)`"""
+        if isinstance(node, ast.Call) and isinstance(node.func, ast.Attribute):
+            v = node.func.value
+            if isinstance(v, ast.Subscript):
+                v = v.value
+            if isinstance(v, ast.Name):
+                return v.id, node.func.attr
+        return None, None
+
+    def _mutated(self, stmts):
+        """names a block of statements may change: assignment targets and receivers of mutating calls"""
+        out = set()
+        for n in ast.walk(ast.Module(body=list(stmts), type_ignores=[])):
+            if isinstance(n, (ast.Assign, ast.AugAssign, ast.AnnAssign)):
+                for t in (n.targets if isinstance(n, ast.Assign) else [n.target]):
+                    for m in ast.walk(t):
+                        if isinstance(m, ast.Name):
+                            out.add(m.id)
+            if isinstance(n, ast.Call):
+                name, attr = self._mut_base(n)
+                if name is not None and name in self.env and self.env[name].typ.startswith(('Set ', 'DDict ', 'List ')) \
+                        and attr not in ('items', 'keys', 'values', 'get', 'copy'):
+                    out.add(name)
+        return out
+
+    @staticmethod
+    def _names_in(nodes):
+        return {m.id for n in nodes for m in ast.walk(n) if isinstance(m, ast.Name)}
+
+    def _bind_let(self, name, typ, text, rest):
+        """`let name' := text` followed by the rest, with the raising calls met in `text` bound around both"""
+        nm = self.gensym(lname(name))
+        self.env[name] = Val(nm, typ, path=name)
+        self.narrow.pop(name, None)
+        pend, self.pending = self.pending, []
+        inner = self.block(rest)
+        self.pending = pend
+        return self.wrap(f'let {nm} := {text}\n{inner}')
+
+    def ext_stmt(self, s, rest):
+        """a statement of the work-list subset, or None (then the ordinary translation applies)"""
+        H = self.u.hooks
+        if isinstance(s, (ast.Return, ast.Raise)) and getattr(self, 'no_return', False):
+            raise Unsupported(f'`{self.inst.qual}`: `{type(s).__name__.lower()}` inside a loop that is read as a state transformer')
+        if isinstance(s, ast.Continue):
+            if self.on_fall is None:
+                raise Unsupported(f'`{self.inst.qual}`: `continue` outside a loop')
+            return self.on_fall(self)              # the next iteration, with the current state
+        if isinstance(s, ast.While):
+            return self.while_worklist(s, rest)
+        if isinstance(s, ast.For):
+            b = s.body[0] if len(s.body) == 1 else None
+            early = isinstance(b, ast.If) and not b.orelse and len(b.body) == 1 and isinstance(b.body[0], ast.Return)
+            return None if early else self.for_state(s, rest)
+        if isinstance(s, ast.Expr) and isinstance(s.value, ast.Call):
+            c = s.value
+            name, attr = self._mut_base(c)
+            old = self.env.get(name) if name else None
+            direct = isinstance(c.func.value, ast.Name) if name else False
+            if old is not None and direct and attr == 'add' and old.typ.startswith('Set ') and 'set_add' in H and len(c.args) == 1 \
+                    and not c.keywords:
+                v = self.expr(c.args[0])
+                if old.typ != 'Set ' + v.typ:
+                    raise Unsupported(f'`{self.inst.qual}`: add of {v.typ} to {old.typ}')
+                return self._bind_let(name, old.typ, '(' + H['set_add'].format(x=_paren(v.text), s=_paren(old.text)) + ')', rest)
+            if old is not None and not direct and attr == 'append' and old.typ.startswith('DDict ') and 'dict_append' in H \
+                    and len(c.args) == 1 and not c.keywords:
+                kt, vt = old.typ.split()[1:3]
+                k, v = self.expr(c.func.value.slice), self.expr(c.args[0])     # key first, then the appended value
+                if (k.typ, v.typ) != (kt, vt):
+                    raise Unsupported(f'`{self.inst.qual}`: `{ast.unparse(s)}`: key {k.typ}, value {v.typ} on {old.typ}')
+                return self._bind_let(name, old.typ, '(' + H['dict_append'].format(d=_paren(old.text), k=_paren(k.text),
+                                                                                   v=_paren(v.text)) + ')', rest)
+            if old is not None and old.typ.startswith(('Set ', 'DDict ')):
+                raise Unsupported(f'`{self.inst.qual}`: `{ast.unparse(s)[:80]}` on a local {old.typ.split()[0]}')
+            return None
+        if isinstance(s, (ast.Assign, ast.AnnAssign)):
+            targets, value = ([s.target], s.value) if isinstance(s, ast.AnnAssign) else (s.targets, s.value)
+            if len(targets) != 1 or value is None:
+                return None
+            tgt = targets[0]
+            for part in (value.elts if isinstance(value, ast.Tuple) else [value]):
+                if isinstance(part, ast.Name) and part.id in self.env and self.env[part.id].typ.startswith(('Set ', 'DDict ')):
+                    raise Unsupported(f'`{self.inst.qual}`: `{ast.unparse(s)}` aliases a mutable local')
+            name, attr = self._mut_base(value)
+            old = self.env.get(name) if name else None
+            if old is not None and attr == 'pop' and old.typ.startswith('Set ') and isinstance(value.func.value, ast.Name):
+                if 'set_pop' not in H or value.args or value.keywords or not isinstance(tgt, ast.Name) or '?' in old.typ:
+                    raise Unsupported(f'`{self.inst.qual}`: `{ast.unparse(s)}`')
+                g, q2 = self.gensym(lname(tgt.id)), self.gensym(lname(name))
+                self.env[tgt.id] = Val(g, old.typ[4:], path=tgt.id)
+                self.env[name] = Val(q2, old.typ, path=name)
+                inner = self.block(rest)
+                # `set.pop()` removes and returns an arbitrary member; on an empty set it raises KeyError
+                return '\n'.join([f'match {H["set_pop"].format(s=_paren(old.text))} with', f'| none => {self.err("KeyError")}',
+                                  f'| some {g} =>', f'  let {q2} := ({old.text}).erase {g}', _indent(inner)])
+            if isinstance(tgt, ast.Tuple) and isinstance(value, ast.Tuple) and len(tgt.elts) == len(value.elts) \
+                    and all(isinstance(t, ast.Name) for t in tgt.elts) and all(self._is_empty_literal(v) for v in value.elts):
+                # `a, b = set(), set()`: constants on the right, so the same as one assignment after the other
+                return self.block([ast.Assign(targets=[t], value=v) for t, v in zip(tgt.elts, value.elts)] + rest)
+        return None
+
+    @staticmethod
+    def _is_empty_literal(v):
+        return (isinstance(v, ast.Call) and isinstance(v.func, ast.Name) and v.func.id in ('set', 'list', 'dict') and not v.args
+                and not v.keywords) or (isinstance(v, (ast.List, ast.Dict)) and not getattr(v, 'elts', getattr(v, 'keys', None)))
+
+    def _loop_frame(self, state, fixed):
+        """a sub-translator in which the variables in scope are the binders of an auxiliary definition"""
+        aux = self.sub()
+        aux.fresh = self.fresh
+        aux.narrow = {}
+        aux.env = {n: v for n, v in aux.env.items() if n in state or n in fixed or v.typ in ('None', 'Kw')}
+        fixed_b, state_b = [], []
+        for n in fixed:
+            nm = aux.gensym(lname(n))
+            fixed_b.append((nm, self.env[n].typ))
+            aux.env[n] = Val(nm, self.env[n].typ, path=n)
+        for n in state:
+            nm = aux.gensym(lname(n))
+            state_b.append((nm, self.env[n].typ))
+            aux.env[n] = Val(nm, self.env[n].typ, path=n)
+        return aux, fixed_b, state_b
+
+    def while_worklist(self, s, rest):
+        """`while c: body` as a fuelled recursion over the (name-sorted) variables the body changes; the code after the loop is
+        its continuation.  Fuel 0 with the condition still true is the unit's `fuel_out` result (else: as if the loop ended)."""
+        if s.orelse:
+            raise Unsupported(f'`{self.inst.qual}`: while/else')
+        if self.on_fall is not None:
+            raise Unsupported(f'`{self.inst.qual}`: a `while` inside another loop')
+        for n in ast.walk(ast.Module(body=s.body, type_ignores=[])):
+            if isinstance(n, (ast.While, ast.Break, ast.Try, ast.With, ast.Global, ast.Nonlocal, ast.Delete, ast.FunctionDef, ast.Lambda)):
+                raise Unsupported(f'`{self.inst.qual}`: `{type(n).__name__}` inside a while body')
+        mutated = self._mutated(s.body)
+        state = sorted(n for n in self.env if n in mutated)
+        used = self._names_in([s.test] + list(s.body) + list(rest))
+        fixed = [n for n in self.env if n not in state and n in used and self.env[n].typ not in ('None', 'Kw')]
+        if any('?' in self.env[n].typ for n in state + fixed):
+            raise Unsupported(f'`{self.inst.qual}`: a local of undeclared element type enters a loop')
+        index = len(self.aux) + 1
+        loop = f'{self.inst.lean}.loop{index}'
+        self.aux.append(None)
+        slot = len(self.aux) - 1
+        fuel_hook = self.u.hooks.get('fuel')
+        fuel_t = fuel_hook(self.inst.qual, index) if fuel_hook else None
+        if not fuel_t:
+            raise Unsupported(f'`{self.inst.qual}`: no fuel declared for while loop {index}')
+        fuel_call = fuel_t.format(**{n: self.env[n].text for n in self.env})
+        ctx = [n for n, _t in self.u.ctx_params]
+        aux, fixed_b, state_b = self._loop_frame(state, fixed)
+        fuel = aux.gensym('fuel')
+        after_tr = aux.sub()
+        after_tr.fresh = aux.fresh
+        after_tr.on_fall = None
+        after = after_tr.block(rest)
+        body_tr = aux.sub()
+        body_tr.fresh = after_tr.fresh
+        cond = body_tr.truth(body_tr.expr(s.test))
+        if body_tr.pending:
+            raise Unsupported(f'`{self.inst.qual}`: a call that may raise in a while test')
+
+        def again(tr):
+            return ' '.join([loop] + ctx + [tr.env[n].text for n in fixed] + [fuel] + [_paren(tr.env[n].text) for n in state])
+        body_tr.on_fall = again
+        body = body_tr.block(list(s.body))
+        self.fresh = body_tr.fresh
+        out = self.u.hooks.get('fuel_out')
+        if out and not self.inst.raises:
+            raise Unsupported(f'`{self.inst.qual}`: running out of fuel needs a result type that can say so')
+        zero = [f'    if {cond} then', _indent(out, 6), '    else', _indent(after, 6)] if out else [_indent(after, 4)]
+        binders = ' '.join([f'({n} : {t})' for n, t in self.u.ctx_params] + [f'({n} : {lean_type(t)})' for n, t in fixed_b])
+        sig = ' → '.join(['Nat'] + [lean_type(t) for _n, t in state_b] + [lean_type(self.inst.ret)])
+        pat = ''.join(f', {n}' for n, _t in state_b)
+        self.aux[slot] = '\n'.join([
+            f'/-- the `while {ast.unparse(s.test)}` loop of `{self.inst.qual}` (fuelled): state ' + ', '.join(state) + ' -/',
+            f'def {loop} {binders} : {sig}',
+            f'  | 0{pat} =>'] + zero + [
+            f'  | {fuel} + 1{pat} =>',
+            f'    if {cond} then', _indent(body, 6), '    else', _indent(after, 6)])
+        args = [self.env[n].text for n in fixed] + [_paren(fuel_call)] + [_paren(self.env[n].text) for n in state]
+        return self.wrap(' '.join([loop] + ctx + args))
+
+    def for_state(self, s, rest):
+        """`for x in xs: body` (no `return` / `raise` / `break` in the body) as an auxiliary structural recursion over `xs`
+        that returns the (name-sorted) variables the body changes; `continue` and the end of the body are the next iteration."""
+        if s.orelse:
+            raise Unsupported(f'`{self.inst.qual}`: for/else')
+        for n in ast.walk(ast.Module(body=s.body, type_ignores=[])):
+            if isinstance(n, (ast.While, ast.Break, ast.Try, ast.With, ast.Return, ast.Raise, ast.Global, ast.Nonlocal, ast.Delete,
+                              ast.FunctionDef, ast.Lambda, ast.Yield, ast.YieldFrom)):
+                raise Unsupported(f'`{self.inst.qual}`: `{type(n).__name__}` inside the body of a loop with state')
+        xs = self.expr(s.iter)
+        if not xs.typ.startswith(('List ', 'Set ')) or '?' in xs.typ:
+            raise Unsupported(f'`{self.inst.qual}`: loop over {xs.typ}')
+        elem = xs.typ.split(' ', 1)[1]
+        if not isinstance(s.target, ast.Name):
+            raise Unsupported(f'`{self.inst.qual}`: loop target `{ast.unparse(s.target)}`')
+        target = s.target.id
+        mutated = self._mutated(s.body)
+        if target in mutated:
+            raise Unsupported(f'`{self.inst.qual}`: the loop variable `{target}` is changed in the body')
+        state = sorted(n for n in self.env if n in mutated)
+        if not state:
+            raise Unsupported(f'`{self.inst.qual}`: a loop whose body changes nothing that is visible after it')
+        used = self._names_in(s.body)
+        fixed = [n for n in self.env if n not in state and n != target and n in used and self.env[n].typ not in ('None', 'Kw')]
+        if any('?' in self.env[n].typ for n in state + fixed):
+            raise Unsupported(f'`{self.inst.qual}`: a local of undeclared element type enters a loop')
+        loop = f'{self.inst.lean}.loop{len(self.aux) + 1}'
+        self.aux.append(None)
+        slot = len(self.aux) - 1
+        ctx = [n for n, _t in self.u.ctx_params]
+        aux, fixed_b, state_b = self._loop_frame(state, fixed)
+        rlean = ' × '.join(_paren(lean_type(t)) for _n, t in state_b)
+        aux.inst = Inst(self.inst.qual, self.inst.lean, self.inst.params, 'LoopState')      # no `return`, nothing may raise
+        aux.no_return = True
+        item, items = aux.gensym('item'), aux.gensym('items')
+
+        def result(tr):
+            return '(' + ', '.join(tr.env[n].text for n in state) + ')' if len(state) > 1 else tr.env[state[0]].text
+
+        def next_iteration(tr):
+            return ' '.join([loop] + ctx + [tr.env[n].text for n in fixed] + [items] + [_paren(tr.env[n].text) for n in state])
+        body_tr = aux.sub()
+        body_tr.fresh = aux.fresh
+        body_tr.env[target] = Val(item, elem, path=target)
+        body_tr.on_fall = next_iteration
+        body = body_tr.block(list(s.body))
+        if body_tr.pending:
+            raise Unsupported(f'`{self.inst.qual}`: a call that may raise inside the body of a loop with state')
+        self.fresh = body_tr.fresh
+        binders = ' '.join([f'({n} : {t})' for n, t in self.u.ctx_params] + [f'({n} : {lean_type(t)})' for n, t in fixed_b])
+        sig = ' → '.join([f'List {_paren(lean_type(elem))}'] + [lean_type(t) for _n, t in state_b] + [rlean])
+        pat = ''.join(f', {n}' for n, _t in state_b)
+        self.aux[slot] = '\n'.join([
+            f'/-- the `for {ast.unparse(s.target)} in {ast.unparse(s.iter)}` loop of `{self.inst.qual}`, as the function from the '
+            'state before it to the state after it: state ' + ', '.join(state) + ' -/',
+            f'def {loop} {binders} : {sig}',
+            f'  | []{pat} =>', _indent(result(aux), 4),
+            f'  | {item} :: {items}{pat} =>', _indent(body, 4)])
+        # --- the call: bind the state after the loop, then the rest
+        call = ' '.join([loop] + ctx + [self.env[n].text for n in fixed] + [_paren(xs.text)] + [_paren(self.env[n].text) for n in state])
+        t = self.gensym('st')
+        lets = [f'let {t} := {call}']
+        k = len(state)
+        for i, n in enumerate(state):
+            proj = t if k == 1 else t + '.2' * i + ('.1' if i < k - 1 else '')
+            nm = self.gensym(lname(n))
+            if k > 1:
+                lets.append(f'let {nm} := {proj}')
+            else:
+                lets[0] = f'let {nm} := {call}'
+            self.env[n] = Val(nm, self.env[n].typ, path=n)
+            self.narrow.pop(n, None)
+        pend, self.pending = self.pending, []
+        inner = self.block(rest)
+        self.pending = pend
+        return self.wrap('\n'.join(lets + [inner]))
+
+    def ext_expr(self, e):
+        """an expression of the work-list subset, or None"""
+        H = self.u.hooks
+        if isinstance(e, ast.Set):
+            # `{a, b}`: the elements added one after the other to an empty set
+            if 'set_add' not in H or any(isinstance(x, ast.Starred) for x in e.elts):
+                raise Unsupported(f'`{self.inst.qual}`: set display `{ast.unparse(e)[:60]}`')
+            vals = [self.expr(x) for x in e.elts]
+            if any(v.typ != vals[0].typ for v in vals):
+                raise Unsupported(f'`{self.inst.qual}`: set display of mixed types')
+            txt = f'([] : {lean_type("Set " + vals[0].typ)})'
+            for v in vals:
+                txt = '(' + H['set_add'].format(x=_paren(v.text), s=txt) + ')'
+            return Val(txt, 'Set ' + vals[0].typ)
+        if isinstance(e, ast.SetComp):
+            # `{x for m in ms for x in f(m)}`: the members' sets, added element by element in order
+            g = e.generators
+            if not (len(g) == 2 and not g[0].ifs and not g[1].ifs and not g[0].is_async and not g[1].is_async
+                    and isinstance(g[0].target, ast.Name) and isinstance(g[1].target, ast.Name) and isinstance(e.elt, ast.Name)
+                    and e.elt.id == g[1].target.id and g[0].target.id != g[1].target.id and 'set_union' in H):
+                raise Unsupported(f'`{self.inst.qual}`: set comprehension other than `{{x for m in ms for x in f(m)}}`')
+            ms = self.expr(g[0].iter)
+            if not ms.typ.startswith('List '):
+                raise Unsupported(f'`{self.inst.qual}`: set comprehension over {ms.typ}')
+            m = self.gensym(lname(g[0].target.id))
+            inner = self.sub()
+            inner.fresh = self.fresh
+            inner.env[g[0].target.id] = Val(m, ms.typ[5:], path=g[0].target.id)
+            f = inner.expr(g[1].iter, allow_raise=True)
+            self.fresh = inner.fresh
+            if inner.pending or not f.typ.startswith('Set ') or '?' in f.typ:
+                raise Unsupported(f'`{self.inst.qual}`: set comprehension over members of type {f.typ}')
+            raises = getattr(f, 'raises', False)
+            v = Val('(' + H['set_union_e' if raises else 'set_union'].format(f=f'(fun {m} => {f.text})', xs=_paren(ms.text)) + ')', f.typ)
+            v.raises = raises
+            return v
+        if isinstance(e, ast.DictComp):
+            # `{k: f(v) for k, v in d.items()}` over a local dict: the association list mapped in insertion order
+            g = e.generators
+            it = g[0].iter if len(g) == 1 else None
+            if not (it is not None and not g[0].ifs and not g[0].is_async and isinstance(g[0].target, ast.Tuple) and len(g[0].target.elts) == 2
+                    and all(isinstance(t, ast.Name) for t in g[0].target.elts) and isinstance(it, ast.Call) and not it.args and not it.keywords
+                    and isinstance(it.func, ast.Attribute) and it.func.attr == 'items' and isinstance(it.func.value, ast.Name)
+                    and g[0].target.elts[0].id != g[0].target.elts[1].id):
+                raise Unsupported(f'`{self.inst.qual}`: dict comprehension other than `{{k: f(v) for k, v in d.items()}}`')
+            d = self.expr(it.func.value)
+            if not d.typ.startswith('DDict ') or '?' in d.typ:
+                raise Unsupported(f'`{self.inst.qual}`: `.items()` of {d.typ}')
+            kt, vt = d.typ.split()[1:3]
+            p = self.gensym('kv')
+            inner = self.sub()
+            inner.fresh = self.fresh
+            kn, vn = (t.id for t in g[0].target.elts)
+            inner.env[kn] = Val(f'{p}.1', kt, path=kn)
+            inner.env[vn] = Val(f'{p}.2', 'List ' + vt, path=vn)
+            key, val = inner.expr(e.key), inner.expr(e.value)
+            self.fresh = inner.fresh
+            if inner.pending or key.text != f'{p}.1' or ' ' in val.typ:
+                # the keys must stay the dict's own keys (distinct); a computed key could merge entries
+                raise Unsupported(f'`{self.inst.qual}`: dict comprehension `{ast.unparse(e)[:80]}`')
+            return Val(f'(({d.text}).map (fun {p} => ({key.text}, {val.text})))', f'Dict {kt} {val.typ}')
+        if isinstance(e, ast.Call) and isinstance(e.func, ast.Name) and e.func.id == 'defaultdict' and e.func.id not in self.env:
+            if len(e.args) == 1 and not e.keywords and isinstance(e.args[0], ast.Name) and e.args[0].id == 'list' and 'list' not in self.env:
+                return Val('[]', 'DDict ?')
+            raise Unsupported(f'`{self.inst.qual}`: `{ast.unparse(e)[:60]}`')
+        if isinstance(e, ast.Call) and isinstance(e.func, ast.Name) and e.func.id in self.env and not e.keywords \
+                and self.env[e.func.id].typ.startswith('Fn ') and len(e.args) == 1:
+            dom, cod = self.env[e.func.id].typ.split()[1:3]          # a callable local applied to a list
+            a = self.expr(e.args[0])
+            if a.typ != dom and lean_type(a.typ) == lean_type(dom) and a.typ.startswith('List '):
+                return Val(f'({self.env[e.func.id].text} {_paren(a.text)})', cod)
+        return None
+
     # ---- expressions -----------------------------------------------------------------------------------
     def truth(self, v):
         """Python truthiness as a Lean Bool"""
@@ -828,6 +1179,8 @@ class FnTr:
             return 'true'
         if v.typ.startswith('List '):
             return f'!({v.text}).isEmpty'
+        if v.typ.startswith('Set ') and '?' not in v.typ:
+            return f'!({v.text}).isEmpty'
         raise Unsupported(f'truthiness of {v.typ}')
 
     def expr(self, e, allow_raise=False):
@@ -841,6 +1194,10 @@ class FnTr:
         return v
 
     def _expr(self, e):
+        if self.u.hooks.get('worklist'):
+            ext = self.ext_expr(e)               # set displays / comprehensions, dict comprehensions: see `ext_expr`
+            if ext is not None:
+                return ext
         if isinstance(e, ast.Name):
             if e.id in self.narrow:
                 return self.narrow[e.id]
